@@ -34,7 +34,15 @@ def spans_layout(r, coin, blocks, mode, nfiles):
     # physical file numbers need not be ordered like the spans
     numbers = r.sample(range(0, 5000), nfiles)
     pos = {f: 0 for f in range(nfiles)}
-    for h, b in enumerate(blocks):
+    # blocks are appended to a file in the order they ARRIVE, which is not always the height order (the top blocks of a file are often
+    # swapped): the highest block of a file need not be the one at the greatest offset
+    order = list(range(n))
+    if r.random() < 0.6:
+        for j in range(n - 1):
+            if r.random() < 0.35:
+                order[j], order[j + 1] = order[j + 1], order[j]
+    for h in order:
+        b = blocks[h]
         f = assign[h]
         name = K.blkname(numbers[f])
         raw = b.enc()
